@@ -123,6 +123,14 @@ class Collector:
                 if any(x is not None and x in k2 for x in k1):
                     return 'ok', 'both slices have the same symbolic length'
                 return 'fail', 'slice lengths %s and %s not known to be equal' % (fmt(a), fmt(b2))
+            if callee.endswith(('split_at', 'split_at_mut')) and len(t['args']) == 2:
+                ln = an.len_of_ref_operand(st, t['args'][0])
+                mid = an.read_operand(st, t['args'][1])
+                if ln is not None and mid is not None and mid[1] <= ln[0]:
+                    return 'ok', 'split point %s <= len %s' % (fmt(mid), fmt(ln))
+                if self.le_len(an, st, t['args'][1], t['args'][0]):
+                    return 'ok', 'split point is known not to exceed the length of this slice'
+                return 'fail', 'split point %s not provably within len %s' % (fmt(mid), fmt(ln))
             return 'fail', 'slice lengths not known to match'
         return 'fail', 'explicit panic reachable'
 
@@ -194,6 +202,14 @@ def _same_owner(entry_fn, fname, site_fn):
     return eb.rsplit('::', 1)[0] == fb.rsplit('::', 1)[0] and eb.count('::') == fb.count('::')
 
 
+def _module_of(name):
+    """crate::module of a function name ('<fatfs::fs::DiskSlice as fatfs::io::Write>::write' -> 'fatfs::fs')"""
+    n = name
+    if n.startswith('<'):
+        n = n[1:]
+    return '::'.join(n.split('::')[:2])
+
+
 def _alias_names(fname, site):
     """names under which a site's function may be listed: a closure of a helper that was inlined (rules/..inline.py) is
     also a closure of the functions the helper was inlined into"""
@@ -240,8 +256,15 @@ def _table_lookup(table, fname, site, config, exact):
         if exact:
             if e['fn'] != fname:
                 continue
-        elif e['fn'] == fname or e.get('exact_fn') or not _same_owner(e['fn'], fname, site.get('fn')):
+        elif e['fn'] == fname or e.get('exact_fn'):
             continue
+        elif not _same_owner(e['fn'], fname, site.get('fn')):
+            # an expression moved to another type of the same module (a value computed once and cached in a new struct)
+            # keeps its entry when the entry pins the expression down by at least two provenance tokens
+            m0 = e.get('match') or {}
+            npins = sum(len(m0.get(k_, [])) for k_ in ('calls', 'fields', 'consts', 'names', 'params'))
+            if npins < 2 or _module_of(e['fn']) != _module_of(fname):
+                continue
         if config is not None and 'configs' in e and config not in e['configs']:
             continue
         m = e.get('match') or {}
@@ -305,6 +328,73 @@ def run_inventory(facts, root_insts, base_fields=None, root_params=None):
     return col
 
 
+def inside_debug_assert(fn, b):
+    """is the checked operation at block b part of the condition of a `debug_assert!` and of nothing else?  Its result (followed
+    through temporaries) is never stored, never passed to a call, and only decides switches one of whose arms is the
+    assertion's own panic call."""
+    from model import op_place, operands_of_rvalue
+    t = fn.blocks[b]['term']
+    if t['k'] != 'assert':
+        return False
+    cp = op_place(t.get('cond')) if t.get('cond') is not None else None
+    if cp is None:
+        return False
+    S = {cp['l']}
+    switches = set()
+    changed = True
+    while changed:
+        changed = False
+        for bi in fn.reachable():
+            for s in fn.blocks[bi]['stmts']:
+                if s['k'] != 'assign':
+                    continue
+                uses = False
+                for o in operands_of_rvalue(s['rv']):
+                    p = op_place(o)
+                    if p is not None and p['l'] in S:
+                        uses = True
+                if s['rv']['k'] in ('ref', 'rawptr', 'discr') and s['rv']['p']['l'] in S:
+                    return False
+                if uses:
+                    if s['lhs']['p']:
+                        return False
+                    if s['lhs']['l'] not in S:
+                        S.add(s['lhs']['l'])
+                        changed = True
+            tt = fn.blocks[bi]['term']
+            if tt['k'] == 'call':
+                for a in tt['args']:
+                    p = op_place(a)
+                    if p is not None and p['l'] in S:
+                        return False
+            elif tt['k'] == 'switch':
+                p = op_place(tt['discr'])
+                if p is not None and p['l'] in S:
+                    switches.add(bi)
+            elif tt['k'] == 'assert' and bi != b:
+                p = op_place(tt.get('cond')) if tt.get('cond') is not None else None
+                if p is not None and p['l'] in S and p['l'] != cp['l']:
+                    return False
+    if not switches or 0 in S:
+        return False
+    for sw in switches:
+        hit = False
+        for x in fn.succ(sw):
+            cur = x
+            for _ in range(4):
+                tx = fn.blocks[cur]['term']
+                if tx['k'] == 'call' and panic_kind(tx.get('callee')) and (tx['span'].get('expn') or '').startswith('debug_assert'):
+                    hit = True
+                    break
+                if tx['k'] == 'goto' and not fn.blocks[cur]['stmts']:
+                    cur = fn.succ(cur)[0]
+                    continue
+                break
+        if not hit:
+            return False
+    return True
+
+
 def classify(site):
     vs = site['verdicts']
     if all(v == 'unreachable' for v in vs):
@@ -338,6 +428,11 @@ def report_sites(rep, rule, col, table, scope_pred=lambda fn, site: True, prop_n
             how = 'D3' if ent.get('requires_flags') or ent.get('anchors') else 'D4'
         else:
             how = 'U'
+        if how == 'U' and site['kind'].startswith('assert:') and inside_debug_assert(fn, b):
+            # arithmetic inside the condition of a `debug_assert!`: compiled out together with the assertion
+            debug_asserts.append('%s  %s (inside the condition)' % (fn.loc(site['span']), snip[:80]))
+            classes['debug-assert-not-proved'] = classes.get('debug-assert-not-proved', 0) + 1
+            continue
         if how == 'U' and site['kind'] == 'call:panic' and (site['span'].get('expn') or '').startswith('debug_assert'):
             # a `debug_assert!` the analysis cannot prove: the developer's own run-time check, absent from release
             # builds (unlike an overflow check, nothing misbehaves when it is compiled out). Listed, not a violation.
